@@ -51,7 +51,7 @@ Proof. exact disabled_chord_never_activated. Qed.
 Print Assumptions C09_v2_disabled_chord_never_activated.
 
 (* chords v2 release rule (drain_releases / the ignore-window branch of drain_inputs) *)
-From KV Require Import Proofs.C09V2Release.
+From KV Require Import Proofs.C09V2Release Proofs.C09V2Exact.
 Theorem C09_v2_nonparticipant_release_ignored : forall j a, mem_n j (ac_keys a) = false -> release_in_ach j a = a.
 Proof. exact nonparticipant_release_ignored. Qed.
 Print Assumptions C09_v2_nonparticipant_release_ignored.
@@ -86,3 +86,23 @@ Theorem C09_v2_ignore_window_release_reaches_chord : forall c dq layer a qd c' d
   exists a', In a' (cv_active c') /\ ac_coord a' = ac_coord a /\ is_released (ac_status a') = true.
 Proof. exact ignore_window_release_reaches_chord. Qed.
 Print Assumptions C09_v2_ignore_window_release_reaches_chord.
+
+(* defchordsv2, exactness in any press order: whatever process_presses adds to the active chords is a chord enabled on the
+   active layer whose key set equals, as a set, the first n keys typed (some n); and the presses it takes out of the queue
+   are those of such a prefix: no other key is swallowed *)
+Theorem C09_v2_activation_is_exact_prefix : forall c layer presses rf c',
+  scan_presses (cv_queue c) [] = Ok (presses, rf) ->
+  process_presses c layer = Ok c' ->
+  (forall a, In a (cv_active c') ->
+     In a (cv_active c) \/
+     exists ch since coord rf' n, In ch (cv_chords c) /\ enabled_on layer ch = true /\
+       same_keys ch (firstn n presses) = true /\ a = get_active_chord ch since coord rf') /\
+  (cv_queue c' = cv_queue c \/
+   exists n, cv_queue c' = filter (fun qd => negb (q_press qd && mem_n (snd (q_coord qd)) (firstn n presses))) (cv_queue c)).
+Proof. exact activation_is_exact_prefix. Qed.
+Print Assumptions C09_v2_activation_is_exact_prefix.
+
+Theorem C09_v2_same_keys_any_order : forall ch typed typed',
+  Permutation typed typed' -> same_keys ch typed = same_keys ch typed'.
+Proof. exact same_keys_any_order. Qed.
+Print Assumptions C09_v2_same_keys_any_order.
